@@ -31,7 +31,7 @@ ASSUMPTIONS = [
     "environment variable names are derived from keys that start with 'ccv', so no real process variable is read",
 ]
 REQUIRED = ["var:unset", "var:empty", "var:valid", "var:invalid", "bound", "unbound", "op:load_tree", "op:loads", "op:assign",
-            "op:ctor", "depth:1", "depth:2", "depth:3", "decl:chain", "decl:item"]
+            "op:ctor", "depth:1", "depth:2", "depth:3", "decl:chain", "decl:item", "later-build"]
 LEVEL_TEXT = (
     "Exhaustive enumeration of the finite naming matrix plus generated kinds/values/histories against a reference "
     "naming function, a reference validator and a no-env twin; kills mutants in prefix joining, opt-out handling "
@@ -112,7 +112,7 @@ def strategy(tier):
         )
         return st.fixed_dictionaries({
             "levels": st.lists(st.sampled_from(SCHEMA_ENVS), min_size=1, max_size=3), "fenv": st.sampled_from(FIELD_ENVS),
-            "node": st.just(node), "var": var, "sibling_var": st.none(),
+            "node": st.just(node), "var": var, "var2": var, "sibling_var": st.none(),
             "decl": st.sampled_from(["explicit", "explicit", "chain", "item"]),
             "ops": st.lists(op, min_size=1, max_size=6),
         })
@@ -135,7 +135,7 @@ def exhaustive(tier):
                 for var in (None, "", "42", "1000"):
                     decls = ("explicit", "chain", "item") if depth > 1 and all(env is None for env in levels[1:]) else ("explicit",)
                     for decl in decls:
-                        yield {"levels": list(levels), "fenv": fenv, "node": node, "var": var, "sibling_var": None, "decl": decl,
+                        yield {"levels": list(levels), "fenv": fenv, "node": node, "var": var, "var2": {None: "17", "": "1000", "42": "43", "1000": "5"}[var], "sibling_var": None, "decl": decl,
                                "ops": [{"op": "load_tree", "value": 7, "with_sibling": True}, {"op": "load_tree", "value": None, "with_sibling": True},
                                        {"op": "loads", "fmt": "yaml", "value": None, "with_sibling": False},
                                        {"op": "assign", "value": 9, "how": "setattr"}, {"op": "loads", "fmt": "json", "value": 11}]}
@@ -361,6 +361,26 @@ def run_case(case, R):
                         if new is not None and new2 is not None:
                             a, b = _freeze(cc, new), _freeze(cc, new2)
                             R.check(a == b, "unbound", "ctor", lambda: "ctor result differs from the no-env twin: %r vs %r" % (a, b))
+            # ---- later configurations of the SAME schema follow the variable as it is when THEY are built ----------------
+            if name:
+                R.label("later-build")
+                os.environ.pop(name, None)
+                later, e1 = construct(root)
+                twin2, e2 = construct(twin_root)
+                if R.check(e1 is None and e2 is None, "built-when", "unset:raises", lambda: "construction with the variable unset raised %r / %r" % (e1, e2)):
+                    a, b = _freeze(cc, later), _freeze(cc, twin2)
+                    R.check(a == b, "built-when", "unset", lambda: "%s was set for an earlier configuration and is unset now: a new configuration differs from the no-env twin: %r vs %r" % (name, a, b))
+                var2 = case.get("var2")
+                if var2:
+                    os.environ[name] = specs.subst(var2)
+                    verdict2 = refmodel.ref(node, specs.subst(var2), ctx)
+                    later2, e3 = construct(root)
+                    if verdict2[0] == A and kind not in ("list", "dict") and not (kind == "challenge" and (node.get("default") or {}).get("mode") != "none"):
+                        if R.check(e3 is None, "built-when", "changed:raises", lambda: "construction with %s=%r raised %r" % (name, var2, e3)):
+                            got2 = _get(later2, path)
+                            R.check(ops.read_matches(node, got2, verdict2), "built-when", "changed", lambda: "%s changed to %r before this configuration was built, the field reads %r" % (name, var2, got2))
+                    elif verdict2[0] == REJ and kind not in ("list", "dict", "challenge"):
+                        R.check(e3 is not None, "built-when", "changed-invalid", lambda: "%s changed to the invalid %r, construction succeeded (field reads %r)" % (name, var2, _get(later2, path)))
     finally:
         for k in [k for k in os.environ if k.startswith("CCV")]:
             del os.environ[k]
